@@ -51,9 +51,10 @@ Theorem C34_overlong_needs_outstanding_job : forall s id s' ev g,
   t_expired (tm s g) < now s /\ (t_locked (tm s g) = true \/ t_npend (tm s g) <> O).
 Proof. exact overlong_needs_hour. Qed.
 
-(* the "interval < 1 means stop" thresholds of the code (regenerated from util/timers.go) are the model's *)
+(* the "interval < 1 means stop" thresholds of the code are the model's: the integer literals compared with a
+   non-call operand in prepare / run / NewTimer, regenerated from util/timers.go (translator filter cmp) *)
 Theorem C34_thresholds_are_code :
-  timer_prepare_ints = [1%Z] /\ timer_run_ints = [1%Z; 1%Z] /\ timers_newtimer_ints = [0%Z; 0%Z; 0%Z; 1%Z].
+  timer_prepare_ints = [1%Z] /\ timer_run_ints = [1%Z] /\ timers_newtimer_ints = [1%Z].
 Proof. repeat split; reflexivity. Qed.
 
 (* ---------------------------------------------------------------- non-vacuity / witnesses *)
